@@ -1,19 +1,30 @@
 // Go -> Lean translator for a small, explicit subset of Go (Tie A, second kind: the *code itself* of the listed
-// functions is regenerated as Lean definitions, lean/Crng/Gen/Code.lean, and lean/Crng/Tie/Code.lean proves each of them
-// equal to the hand-written model the property theorems are about).
+// functions is regenerated as Lean definitions, lean/Crng/Gen/Code*.lean, and lean/Crng/Tie/Code*.lean proves each of them
+// equal, for all inputs, to a hand-written closed form the property statements are read from). DESIGN.md 12.9.
 //
-// Supported: if / else with init, return, := and = (identifiers, tuples, a[i] = e, x.f = e, op=), ++/--, for-range over a
-// slice with break / continue / return inside and assignments to outer variables, expression statements that are calls,
-// channel sends, `var x T`; expressions: identifiers, literals, unary / binary operators, calls (library functions of
-// Crng.Code.Lib, methods, functions of the same package that are translated too, conversions), selectors, index, slice,
-// type assertion, one-return function literals. Anything else makes the function untranslatable: it is emitted as
-// `def <name>_UNTRANSLATABLE : String := "<reason>"` and the tie module (which names the definition) stops compiling.
+// Supported statements: if / else with init (a branch that only assigns becomes a tuple-valued if; a branch that falls
+// through binds the rest once as a join point when no assigned variable is live, else the rest is duplicated), return (also
+// bare, with named results), := and = (identifiers, tuples, a[i] = e, x.f = e, m[k] = v on declared maps, op=), ++/--,
+// for-range over a slice (:= and = forms) with break / continue / return and assignments to outer variables, for init; cond;
+// post loops (fuel-bounded whileP / whileR; optionally emitted as named definitions), switch with or without tag, type
+// switch on PyVal, `v, ok := x.(T)`, labelled statements (and the extraction of one as a function of its own), call
+// statements (declared effects become trace events, methods of other components splice the callee's trace, mutator / pop
+// methods rebind a threaded object, Store on a field is an assignment), channel sends, `var x T`, defer of an ignored call.
+// Expressions: identifiers, literals, unary / binary operators, calls (library functions of Crng.Code.Lib, methods,
+// translated functions of the same package, function-valued parameters, conversions, append / make / copy / len,
+// fmt.Errorf / errors.New as their format string, fmt.Sprintf with %d %f %.0f), selectors, package constants, index, 2- and
+// 3-index slices, type assertions, unkeyed / keyed / empty composite literals, one-return function literals.
+// State: package variables or a mutated receiver / parameter are threaded (returned after the results).
+// "guards" mode: only the leading `if cond { return ..., err }` statements of a constructor.
+// Anything else makes the function untranslatable: it is emitted as `def <name>_UNTRANSLATABLE : String := "<reason>"`
+// and the tie module (which names the real definition) stops compiling.
 //
-// What the translation does NOT keep (trusted, stated in DESIGN): logging calls and mutex operations are dropped,
-// atomic.Value Load / type assertions / conversions between []byte and string / pointer operations are the identity,
-// all Go integer types are unbounded Int, a slice is its list of elements (aliasing is C04's and C18's topic, modelled in
-// Crng.GoSlice), evaluation order inside one expression is irrelevant because translated expressions are effect-free
-// (effects are statements).
+// What the translation does NOT keep (trusted, stated in DESIGN): logging calls, fmt.Println and mutex operations are
+// dropped, atomic.Value Load / type assertions to the static type / conversions between []byte and string / pointer
+// operations are the identity, all Go integer types are unbounded Int, a slice is its list of elements (aliasing is C04's
+// and C18's topic, modelled in Crng.GoSlice), an out-of-range index yields the default value (panics are C14's topic),
+// evaluation order inside one expression is irrelevant because translated expressions are effect-free (effects are
+// statements), one goroutine.
 package main
 
 import (
